@@ -584,7 +584,8 @@ func TestVerif_C32_Hist(t *testing.T) {
 		p := genPlan(rt)
 		dir, err := os.MkdirTemp("", "c32-")
 		if err != nil {
-			rt.Skip("tempdir")
+			rec.Label("inconclusive:tempdir")
+			return
 		}
 		defer os.RemoveAll(dir)
 		// diagnostics only: if a case is stuck for 150 s, leave the goroutine stacks behind
